@@ -39,6 +39,30 @@ class Holder:
     b: Bounded[Leaf]
 
 
-SUBJECTS = [("Pair", Pair, [Pair(Leaf(1), [Shade.DARK], 2)]),
+import datetime as _dt
+
+from mashumaro.types import SerializationStrategy
+
+
+class Ordinal(SerializationStrategy):
+    """a strategy whose annotations are strings too (postponed evaluation): serialize returns what '-> int' promises"""
+
+    def serialize(self, value: _dt.date) -> int:
+        return value.toordinal()
+
+    def deserialize(self, value: int) -> _dt.date:
+        return _dt.date.fromordinal(value)
+
+
+@dataclasses.dataclass
+class Dated:
+    d: _dt.date = dataclasses.field(metadata={"serialization_strategy": Ordinal()})
+    e: _dt.date = dataclasses.field(default=_dt.date(2020, 1, 1), metadata={"serialization_strategy": Ordinal()})
+    ds: List[_dt.date] = dataclasses.field(default_factory=list)
+
+
+SUBJECTS = [("Dated (strategy with postponed return annotation)", Dated, [Dated(_dt.date(2024, 2, 29)), Dated(_dt.date(1, 1, 1), _dt.date(9999, 12, 31), [_dt.date(2000, 1, 1)])]),
+            ("List[Dated]", List[Dated], [[Dated(_dt.date(2024, 2, 29))]]),
+            ("Pair", Pair, [Pair(Leaf(1), [Shade.DARK], 2)]),
             ("List[Pair]", List[Pair], [[Pair(Leaf(1, "t"), [], 0)]]),
             ("Holder", Holder, [Holder(Pair(Leaf(1), [Shade.LIGHT], 3), [], Bounded(Leaf(2)))])]
